@@ -50,13 +50,13 @@ def _in_package(o) -> bool:
     return m == 'biogeme' or m.startswith('biogeme.')
 
 
-def _placeholder(owner: str, name: str):
+def _placeholder(owner: str, name: str, module: str = 'c20user', marker=None):
     def redefined(self, *a, **k):
-        return None
+        return marker
 
     redefined.__name__ = name
     redefined.__qualname__ = f'{owner}.{name}'
-    redefined.__module__ = 'c20user'
+    redefined.__module__ = module
     return redefined
 
 
@@ -128,6 +128,9 @@ class Model:
         self.import_errors = getattr(self, 'import_errors', [])
         self.fid_of: dict[int, str] = {}
         self.obj_of: dict[str, object] = {}
+        self.sid_of: dict[int, str] = {}  # id(class object) -> space id: classes are told apart by IDENTITY
+        self.cls_of_sid: dict[str, type] = {}
+        self.printed: dict[str, str] = {}  # space id -> the class's own name (__qualname__), not unique
         self.spaces: dict[str, object] = {}  # space id -> class or module
         self.is_module: dict[str, bool] = {}
         self.bases: dict[str, list[str]] = {}
@@ -139,9 +142,23 @@ class Model:
 
     # -- identities
     def space_id(self, o) -> str:
+        """The id of a space.  A class is identified by the OBJECT: a second class object that prints
+        the same module and qualified name (a namesake subclass, a module loaded twice) gets an id of
+        its own (suffix #2, #3 ...); the name the class itself carries (__qualname__) is kept apart in
+        self.printed (constant ClassName of the spec)."""
         if inspect.ismodule(o):
             return 'module ' + o.__name__
-        return f'{o.__module__}.{o.__qualname__}'
+        sid = self.sid_of.get(id(o))
+        if sid is None:
+            base = f'{o.__module__}.{o.__qualname__}'
+            sid, n = base, 1
+            while sid in self.cls_of_sid:
+                n += 1
+                sid = f'{base} #{n}'
+            self.sid_of[id(o)] = sid
+            self.cls_of_sid[sid] = o  # (keeps the class alive: id() stays unique)
+            self.printed[sid] = o.__qualname__
+        return sid
 
     def fid(self, f) -> str:
         k = id(f)
@@ -193,6 +210,41 @@ class Model:
             u = type('User_' + c.__name__, (c,), body)
             self.user_classes[self.space_id(u)] = u
         classes.update(self.user_classes)
+        # ... and NAMESAKE subclasses: same __name__ and __qualname__ as the parent ("class Database(Database)",
+        # "class Beta(Beta)"), declared in a user module (even ranks) or carrying the parent's __module__ as well (odd
+        # ranks: nothing a class prints tells it from its parent, as after a module is loaded twice).  One for every
+        # class that declares aliases and for every class that inherits aliases and itself overrides an advertised
+        # name; it redefines EVERY advertised name visible on the parent (own or inherited).
+        def visible_method_aliases(c):
+            out = {}
+            for k in c.__mro__:
+                for n, raw in vars(k).items():
+                    f, dsc = _unwrap_descriptor(raw)
+                    if n not in out and is_alias(f) and dsc == 'plain' and inspect.getattr_static(c, n, None) is raw:
+                        if inspect.isfunction(_unwrap_descriptor(inspect.getattr_static(c, f.__newname__, None))[0]):
+                            out[n] = f.__newname__
+            return out
+
+        self.namesake_classes: dict[str, type] = {}
+        self.namesake_parent: dict[str, str] = {}
+        parents = [u.__bases__[0] for _, u in sorted(self.user_classes.items())]
+        for sid in sorted(self.package_only):
+            c = classes[sid]
+            if c not in parents and any(inspect.isfunction(vars(c).get(new)) for new in visible_method_aliases(c).values()):
+                parents.append(c)
+        for rank, c in enumerate(parents):
+            news = sorted(set(visible_method_aliases(c).values()))
+            module = 'c20user' if rank % 2 == 0 else c.__module__
+            body = {n: _placeholder(c.__qualname__, n, module, marker=f'<namesake {c.__qualname__}.{n}>') for n in news}
+            body['__module__'] = module
+            body['__qualname__'] = c.__qualname__
+            t = type(c.__name__, (c,), body)
+            if t.__name__ != c.__name__ or t.__qualname__ != c.__qualname__ or t is c:
+                raise MachineryError(f'namesake subclass of {c!r} does not carry its name')
+            tsid = self.space_id(t)
+            self.namesake_classes[tsid] = t
+            self.namesake_parent[tsid] = self.space_id(c)
+        classes.update(self.namesake_classes)
         # closure under direct bases (external classes included: they take part in the linearisation)
         todo = list(classes.values())
         while todo:
@@ -243,6 +295,8 @@ class Model:
                     self.descr[(sid, n)] = 'plain'
             self.table[sid] = tab
         for sid in self.package_classes:
+            if sid in self.namesake_classes:
+                continue  # made by the driver: no module body declares it
             msid = 'module ' + classes[sid].__module__
             if msid in self.spaces:
                 self.home[sid] = msid
@@ -291,9 +345,9 @@ class Model:
         """The extracted facts, JSON-ready (read by AliasesModel.tla)."""
         kws = []
         for k in self.kwmaps:
-            for old, new in k['map'].items():
+            for pos, (old, new) in enumerate(k['map'].items(), 1):
                 kws.append(dict(fid=k['fid'], space=k['space'], fname=k['name'], old=old, new=new or '', drop=not new,
-                                params=list(k['params']), varkw=k['varkw']))
+                                params=list(k['params']), varkw=k['varkw'], pos=pos))
         d = dict(
             spaces=sorted(self.spaces),
             modules=sorted(s for s in self.spaces if self.is_module[s]),
@@ -305,6 +359,7 @@ class Model:
                 for fid, r in self.fn.items()},
             renames=[list(p) for p in sorted(DOCUMENTED_RENAMES)],
             kwrenames=kws,
+            cname={s: (self.printed.get(s, s)) for s in self.spaces},
         )
         return d
 
@@ -355,6 +410,7 @@ CONSTANTS
  Spelling <- G_Spelling
  Renames <- G_Renames
  KwRenames <- G_KwRenames
+ ClassName <- G_ClassName
 '''
 
 
@@ -537,14 +593,16 @@ def spy_pair(model: Model, rec: dict, shape: int = 0) -> dict:
 # ------------------------------------------------------------------------------------------------
 
 
-def kw_case(model: Model, rec: dict) -> dict:
+def kw_case(model: Model, rec: dict, wrapper=None) -> dict:
     """rec: fid, given (sequence of [name, value-number]), forwarded_options (set of sequences
     of [name, value-number]), warnings (number).  The wrapped function is replaced by a stub in
-    the wrapper's closure; positional arguments are two sentinels."""
-    w = model.obj_of[rec['fid']]
+    the wrapper's closure; positional arguments are two sentinels.  The keywords are given in the
+    order of rec['given'] (Python hands **kwargs over in call order).  `wrapper`: another wrapper
+    with the same closure layout (negative controls)."""
+    w = wrapper if wrapper is not None else model.obj_of[rec['fid']]
     cell = cells(w)['func']
     inner = cell.cell_contents
-    vals = {1: Sentinel('v1'), 2: Sentinel('v2'), 3: None, 4: Sentinel('v4')}
+    vals = {1: Sentinel('v1'), 2: Sentinel('v2'), 3: None, 4: Sentinel('v4'), 5: Sentinel('v5'), 6: Sentinel('v6')}
     log = []
     ret = Sentinel('ret')
 
@@ -554,6 +612,8 @@ def kw_case(model: Model, rec: dict) -> dict:
 
     p1, p2 = Sentinel('p1'), Sentinel('p2')
     kwargs = {n: vals[v] for n, v in rec['given']}
+    if list(kwargs) != [n for n, _ in rec['given']]:
+        raise MachineryError(f"keyword case with a repeated keyword: {rec['given']}")
     cell.cell_contents = stub
     try:
         with warnings.catch_warnings(record=True) as wl:
@@ -579,3 +639,55 @@ def kw_case(model: Model, rec: dict) -> dict:
         if not any(f"'{n}'" in str(x.message) for n in rec['obsolete_given']):
             problems.append(dict(what='warning does not name the obsolete keyword', got=str(x.message)))
     return dict(ok=not problems, problems=problems)
+
+
+# ------------------------------------------------------------------------------------------------
+# faulty wrappers for the negative controls (what a wrong library could look like)
+# ------------------------------------------------------------------------------------------------
+
+
+def name_dispatching_wrapper(w, owner):
+    """A deprecation wrapper that recognises "its own" class BY NAME: instances of a class called
+    like `owner` are served with the captured function, the new name is looked up on the object
+    only for classes of another name.  Right for every subclass but a namesake."""
+    import functools
+
+    new_func = captured_cell(w).cell_contents
+    old_name, owner_name = w.__name__, owner.__name__
+
+    @functools.wraps(w)
+    def wrapper(*args, **kwargs):
+        warnings.warn(f'{old_name} is deprecated; use {new_func.__name__} instead.', DeprecationWarning, stacklevel=2)
+        if args and type(args[0]).__name__ != owner_name:
+            return getattr(args[0], new_func.__name__)(*args[1:], **kwargs)
+        return new_func(*args, **kwargs)
+
+    wrapper.__deprecated__ = True
+    wrapper.__newname__ = w.__newname__
+    return wrapper
+
+
+def stopping_kw_wrapper(w):
+    """A keyword-renaming wrapper that stops reading the keywords once it has met an ignored one
+    (everything given AFTER it is lost).  Same closure layout as the real one."""
+    import functools
+
+    c = cells(w)
+    obsolete_params, func = c['obsolete_params'].cell_contents, c['func'].cell_contents
+
+    @functools.wraps(func)
+    def wrapper(*args, **kwargs):
+        processed = {}
+        for name, value in kwargs.items():
+            if name in obsolete_params:
+                new_name = obsolete_params[name]
+                warnings.warn(f"Parameter '{name}' is deprecated" + (f"; use '{new_name}={value}' instead." if new_name else ' and is ignored.'),
+                              DeprecationWarning, stacklevel=2)
+                if not new_name:
+                    break
+                processed[new_name] = value
+            else:
+                processed[name] = value
+        return func(*args, **processed)
+
+    return wrapper
